@@ -506,6 +506,10 @@ fn simplify_logic_nary(exps: &[Exp], is_and: bool) -> Exp {
 /// or a negation of a leaf, which are unambiguous on their own.
 fn logic_operand_to_string(exp: &Exp) -> String {
     match exp {
+        // boolean literals compile to 1 and 0, as numbers they would not type check
+        // as operands of a logic operator when the text is read back
+        Exp::Number(value) if *value == 1.0 => "true".to_string(),
+        Exp::Number(value) if *value == 0.0 => "false".to_string(),
         exp if exp.is_leaf() => exp.to_string(),
         Exp::Not(inner) if inner.is_leaf() => exp.to_string(),
         exp => format!("({})", exp),
@@ -530,7 +534,7 @@ impl fmt::Display for Exp {
                 .join(" or "),
             Exp::Not(exp) => {
                 if exp.is_leaf() {
-                    format!("not {}", exp)
+                    format!("not {}", logic_operand_to_string(exp))
                 } else {
                     format!("not ({})", exp)
                 }
